@@ -159,7 +159,7 @@ def run(ctx: core.Ctx):
                 cube[:, i, j] = [v if ok and v != nd else nd for v, ok in zip(yv, mk)]
         t = np.arange(nt).astype("datetime64[D]")
         da = xr.DataArray(cube, dims=("time", "y", "x"), coords={"time": t})
-        for pp in (None, 0.9):
+        for pp in (None, 0.9, 0.5, rng.choice([0.2, 0.8])):
             ds = da.hdc.whit.whitswcv(nodata=nd, p=pp)
             sr = np.arange(-1.8, 4.2, 0.2)
             ctx.case(("whitswcv", cube.tobytes(), pp), sample=dict(accessor="whitswcv", p=pp))
